@@ -13,9 +13,14 @@ for id in "${ids[@]}"; do
   if [ -n "$(git -C $REPO status --porcelain)" ]; then echo "$id: repository copy not clean, stopping"; exit 2; fi
   # (no fuzzy fallback: `patch --fuzz` once moved a hunk into another branch and silently changed the mutant;
   # a change that no longer applies gets a hand-made patch.rebased.diff)
-  if ! git -C $REPO apply $PWD/$P 2>/dev/null; then echo "$id $prop PATCH-DOES-NOT-APPLY"; git -C $REPO checkout -- .; git -C $REPO clean -fdq; bad=1; continue; fi
+  # ... or is merged three-way on the blobs the patch names, which either merges cleanly or reports a conflict)
+  if ! git -C $REPO apply $PWD/$P 2>/dev/null; then
+    if ! git -C $REPO apply --3way $PWD/$P >/dev/null 2>&1 || [ -n "$(git -C $REPO diff --name-only --diff-filter=U)" ]; then
+      echo "$id $prop PATCH-DOES-NOT-APPLY"; git -C $REPO checkout -q HEAD -- .; git -C $REPO clean -fdq; bad=1; continue
+    fi
+  fi
   out=$(./check $prop --tier quick 2>&1); rc=$?
-  git -C $REPO checkout -- .; git -C $REPO clean -fdq
+  git -C $REPO checkout -q HEAD -- .; git -C $REPO clean -fdq
   cls=$(echo "$out" | grep -m1 "^  class=" | grep -o "class=[^ ]* key=[^ ]*")
   if [ $rc -eq 1 ] && echo "$out" | grep -q "^VIOLATION property=$prop "; then echo "$id $prop caught $cls"
   elif [ "$verdict" = "missed" ] && [ $rc -eq 0 ]; then echo "$id $prop not caught (recorded as a miss: outside what the simulation runs, see meta.json)"
